@@ -53,7 +53,7 @@ type obj struct {
 
 func body(w *run.Worker) {
 	ctx := context.Background()
-	w.Cases("quarantine", w.N(240, 12000), func(c *run.Case) { one(ctx, w, c) })
+	w.Cases("quarantine", w.N(720, 12000), func(c *run.Case) { one(ctx, w, c) })
 }
 
 func one(ctx context.Context, w *run.Worker, c *run.Case) {
